@@ -22,6 +22,8 @@ CLAIMS["C13"] = ("partial, strong: every write of the negotiated version provabl
     "dominating-guard implication per store, decision cells on rtr_receive_pdu, interprocedural return-value sets (belief contradiction)")
 CLAIMS["C03"] = ("partial, strong: buffer-then-apply (every table-reaching call dominated by End of Data and its session check), serial stored iff every update succeeded iff success is returned (all paths, update/undo results forked over their full return sets), rollback exhaustiveness (any failed undo purges both live tables and forces a reset; every failure ends in RTR_ERROR and an error state; undo loops cover all families applied so far), shadow swap only on success and silent release on every path, own-socket records only, and a program-wide inventory of dropped status results; equality of table contents with the mathematical delta is C02 composed with these",
     "path-sensitive effect counting with forked call results over computed return sets, dominating guards, loop-structure matching, call graph closure")
+CLAIMS["C08"] = ("partial: the socket state machine is extracted from the IR (one abstract iteration per state, interprocedural state-effect summaries of the functions it calls) and checked for handler exhaustiveness, absence of trap states (ESTABLISHED reachable from every state, error arms always leave), time advancing on every cycle (must-occur sleep or blocking receive; FAST_RECONNECT justified by the version decrease), no silent failure returns (timeout / closed connection always change state), and the fate of every class of transport result; the protocol-time bound and equality with the cache's data set are not decided",
+    "FSM extraction by abstract evaluation per state, interprocedural effect summaries, graph reachability and cycle analysis")
 NA = {}
 def main():
     props = [json.loads(l) for l in open(os.path.join(HERE, "properties.jsonl"))]
